@@ -22,7 +22,8 @@ RULE = ("grammar skeletons with unrestricted back references (direct, indirect a
         "terminals optionally named '%', '{}', '%s', '\\\\', \"'\" through synonyms; both "
         "smart_factorization settings; 3-6 inputs of <=8 tokens per accepted grammar parsed under the stack-depth "
         "monitor. Non-trivial = skeleton has a nullable symbol immediately left of a non-terminal in some alternative; "
-        "distinct by (skeleton, naming).")
+        "distinct by (skeleton, naming)."
+        " Also: texts of accepted grammars passed as str / list / iterator / generator; a two-alternative operator (nullable.. Q t | LATER); part templates_terminate: 416 ListProds / MapProds / ProdSequence configurations with (nullable) non-terminal items and delimiters, every token string up to length 3-4, accepted grammars must terminate.")
 ASSUMPTIONS = [
     "other constructor errors are excluded by construction (only defined symbols, no duplicate alternatives)",
     "termination is decided by the pigeonhole depth criterion; a push budget (400k) exhausted without it is counted inconclusive, never a violation",
